@@ -187,7 +187,7 @@ def c15(res, tier, seed, replay):
             if m:
                 c, s, e = (int(x) for x in m[-1])
                 cases, same, early = cases + c, same + s, early + e
-    stat = {"insert_ok": 0, "insert_quota": 0, "create_ok": 0, "create_quota": 0, "create_exists": 0, "delete": 0, "create_races": 0, "race_create_ok": 0, "race_create_quota": 0,
+    stat = {"insert_ok": 0, "insert_quota": 0, "create_ok": 0, "create_quota": 0, "create_exists": 0, "delete": 0, "sick_inserts": 0, "sick_inserts_beyond_quota": 0, "create_races": 0, "race_create_ok": 0, "race_create_quota": 0,
             "inserts_with_failed_ranges": 0, "inserts_spanning_shards": 0, "inserts_opening_shards": 0, "max_shards": 0,
             "histories": 0, "errors": 0}
     distinct = set()
@@ -211,6 +211,16 @@ def c15(res, tier, seed, replay):
                 if e["ev"] == "Node":
                     stat["histories"] += 1
                     prev = {}
+                    continue
+                if e["ev"] == "SickInsert":
+                    # (an error is the expected answer while a shard cannot be opened)
+                    stat["sick_inserts"] = stat.get("sick_inserts", 0) + 1
+                    stat["sick_insert_" + e["res"]] = stat.get("sick_insert_" + e["res"], 0) + 1
+                    cur = {(x["u"], x["c"]): x["k"] for x in e["state"]}
+                    before = prev.get((e["u"], e["c"]), [])
+                    if sum(before) + e["n"] > e["maxPts"]:
+                        stat["sick_inserts_beyond_quota"] = stat.get("sick_inserts_beyond_quota", 0) + 1
+                    prev = cur
                     continue
                 if e.get("res") == "error":
                     stat["errors"] += 1
@@ -267,7 +277,7 @@ def c15(res, tier, seed, replay):
     if not res.violations:
         if cases == 0:
             raise Inconclusive("no placement case reached the trace validator (vacuous)")
-        for k in ("insert_ok", "insert_quota", "create_ok", "create_quota", "create_races", "race_create_ok", "race_create_quota", "inserts_with_failed_ranges",
+        for k in ("insert_ok", "insert_quota", "create_ok", "create_quota", "create_races", "race_create_ok", "race_create_quota", "sick_inserts", "sick_inserts_beyond_quota", "inserts_with_failed_ranges",
                   "inserts_spanning_shards", "inserts_opening_shards"):
             if stat[k] == 0:
                 raise Inconclusive(f"end-to-end histories never exercised '{k}' (vacuous)")
